@@ -380,6 +380,7 @@ struct Hist {
     prices: Vec<(usize, u128)>,
     log: Vec<String>,
     tag: String,
+    samples: u32,
 }
 
 const E18: u128 = 1_000_000_000_000_000_000;
@@ -417,6 +418,7 @@ impl Hist {
             prices,
             log: vec![],
             tag,
+            samples: 0,
         };
         h.refresh_prices();
         let (sol_mint, usdc_mint) = (h.w.tokens[sol].mint, h.w.tokens[usdc].mint);
@@ -810,6 +812,11 @@ impl Hist {
                         } else {
                             m.count("unstake_partial_ok");
                             m.nontrivial(&sig);
+                            if m.wants_sample() && self.samples < 4 && self.tag.ends_with("history=0") {
+                                self.samples += 1;
+                                m.sample(json!({"kind": "partial unstake", "staked_amount": a.to_string(), "staked_value_usd": v.value.to_string(), "unstake_amount": x.to_string(),
+                                    "kept_amount": post.amount.to_string(), "kept_value_usd": post.value.to_string(), "gt_minted": minted.to_string(), "claim_enabled": gs.claim_enabled}));
+                            }
                             if (b(v.value) * b(remaining)) % b(a) != BigInt::zero() {
                                 m.count("unstake_partial_ok_value_rounded_down");
                             }
@@ -1003,15 +1010,15 @@ pub fn run(args: &Args) -> Option<i32> {
     let seed = args.seed;
     vcommon::monitor::run_shards(&mut mon, args.threads, n_shards, |shard, m| {
         let mut rng = Rng::derive(seed, shard, 38);
-        for _ in 0..pure_cases {
-            pure_apy_case(m, &mut rng);
-            pure_reward_case(m, &mut rng);
-        }
         for hidx in 0..histories {
             let mut hrng = Rng::derive(seed, shard, 3800 + hidx);
             let mut h = Hist::new(&mut hrng, format!("seed={seed} shard={shard} history={hidx}"));
             m.count("histories");
             h.run(&mut hrng, m, ops);
+        }
+        for _ in 0..pure_cases {
+            pure_apy_case(m, &mut rng);
+            pure_reward_case(m, &mut rng);
         }
     });
     drop(quiet);
